@@ -101,3 +101,839 @@ def first_error(tail):
     except ValueError:
         msg = ""
     return (f[0], f[1], int(f[2]), int(f[3]), int(f[4]), msg)
+
+
+# ------------------------------------------------------------------------------------------------
+# abstract programs with explicit binders (well-typed by construction)
+#
+# A binder is an object; every use refers to the binder object, so the *intended* binding structure
+# is known independently of any names.  A naming maps binders to names; `lexical_check` decides with
+# an independent implementation of the documented scoping rules whether every use resolves to the
+# intended binder under that naming.
+
+class B:
+    """a binder: global / function / parameter / local / case variable / loop counter"""
+    _n = 0
+
+    def __init__(self, kind, ty, mut=False, hint="v"):
+        B._n += 1
+        self.uid = B._n
+        self.kind = kind        # 'global' | 'param' | 'local' | 'casevar'
+        self.ty = ty
+        self.mut = mut
+        self.hint = hint
+        self.home = None        # module index (partitioning)
+
+    def __repr__(self):
+        return "<%s%d:%s>" % (self.hint, self.uid, self.kind)
+
+
+INT, STR, BOOL = "int", "str", "bool"
+
+
+def fn_ty(params, ret):
+    return ("fn", tuple(params), ret)
+
+
+def ty_text(t):
+    if isinstance(t, str):
+        return t
+    if t[0] == "fn":
+        return "fn %s-> %s" % ("".join(ty_text(p) + ", " for p in t[1])[:-2] + " " if t[1] else "", ty_text(t[2]))
+    if t[0] == "list":
+        return "[%s]" % ty_text(t[1])
+    if t[0] == "blob" or t[0] == "enum":
+        return t[1]
+    raise ValueError(t)
+
+
+BLOB_P = ("blob", "Pt")       # Pt :: blob { a: int, s: str }
+ENUM_E = ("enum", "Ev")       # Ev :: enum  A int, B str, C  end
+LIST_I = ("list", INT)
+
+
+class Prog:
+    def __init__(self):
+        self.items = []       # ('gdef', B, expr) | ('blob',) | ('enum',) | ('ext',)
+        self.binders = []     # all binders in creation order
+
+
+class Gen:
+    """random well-typed programs"""
+
+    def __init__(self, r, size=3, init_calls="none", use_types=True, global_assign=True):
+        """init_calls: may global initialisers call functions?  'none' | 'pure' (only functions without
+        print / assignment to globals, transitively) | 'any'.  global_assign: may function bodies assign
+        globals (or their fields)?"""
+        self.r = r
+        self.size = size
+        self.init_calls = init_calls
+        self.global_assign = global_assign
+        self.pure_ctx = False  # generating the body of a pure function
+        self.use_types = use_types
+        self.p = Prog()
+        self.level = 10 ** 9  # level of the global function being generated
+
+    def nb(self, kind, ty, mut=False, hint="v"):
+        b = B(kind, ty, mut, hint)
+        self.p.binders.append(b)
+        return b
+
+    # ---- expressions -----------------------------------------------------------------------
+    def vars_of(self, env, ty, mut=None):
+        out = []
+        seen = set()
+        for sc in reversed(env):
+            for b in reversed(sc):
+                if b.uid not in seen and b.ty == ty and (mut is None or b.mut == mut):
+                    out.append(b)
+                    seen.add(b.uid)
+        return out
+
+    def callees(self, env, ret="any"):
+        """functions that may be called here without creating unbounded recursion: globals of a
+        lower level than the function being generated, local functions whose body is complete"""
+        fs = []
+        seen = set()
+        for sc in reversed(env):
+            for b in reversed(sc):
+                if b.uid in seen or not (isinstance(b.ty, tuple) and b.ty[0] == "fn"):
+                    continue
+                seen.add(b.uid)
+                if getattr(b, "open", False) or getattr(b, "rec", False):
+                    continue
+                if b.kind == "global" and getattr(b, "level", 0) >= self.level:
+                    continue
+                if self.pure_ctx and not getattr(b, "pure", False):
+                    continue
+                if ret == "any" or b.ty[2] == ret:
+                    fs.append(b)
+        return fs
+
+    def expr(self, env, ty, d=2, pure=False):
+        r = self.r
+        cands = [b for b in self.vars_of(env, ty)]
+        if cands and (d <= 0 or r.random() < 0.45):
+            return ("var", r.choice(cands))
+        if d > 0 and not pure:
+            fs = self.callees(env, ty)
+            if fs and r.random() < 0.35:
+                f = r.choice(fs)
+                return ("call", ("var", f), [self.expr(env, t, d - 1, pure) for t in f.ty[1]])
+        if ty == INT:
+            if d > 0 and r.random() < 0.6:
+                k = r.random()
+                if k < 0.7:
+                    return ("bin", r.choice(["+", "-", "*"]), self.expr(env, INT, d - 1, pure), self.expr(env, INT, d - 1, pure))
+                if k < 0.8 and self.use_types:
+                    pts = self.vars_of(env, BLOB_P)
+                    if pts:
+                        return ("field", ("var", r.choice(pts)), "a")
+                return ("ifx", self.expr(env, BOOL, d - 1, pure), self.expr(env, INT, d - 1, pure), self.expr(env, INT, d - 1, pure))
+            return ("int", r.randint(0, 9))
+        if ty == STR:
+            if d > 0 and r.random() < 0.4:
+                return ("bin", "+", self.expr(env, STR, d - 1, pure), self.expr(env, STR, d - 1, pure))
+            return ("str", r.choice(["a", "b", "xy", "", "q"]))
+        if ty == BOOL:
+            if d > 0 and r.random() < 0.7:
+                k = r.random()
+                if k < 0.5:
+                    return ("bin", r.choice(["<", ">", "==", "!=", "<=", ">="]), self.expr(env, INT, d - 1, pure), self.expr(env, INT, d - 1, pure))
+                if k < 0.7:
+                    return ("bin", r.choice(["and", "or"]), self.expr(env, BOOL, d - 1, pure), self.expr(env, BOOL, d - 1, pure))
+                if k < 0.85:
+                    return ("not", self.expr(env, BOOL, d - 1, pure))
+                return ("bin", "==", self.expr(env, STR, d - 1, pure), self.expr(env, STR, d - 1, pure))
+            return ("bool", r.random() < 0.5)
+        if ty == LIST_I:
+            return ("list", [self.expr(env, INT, d - 1, pure) for _ in range(r.randint(1, 3))])
+        if ty == BLOB_P:
+            return ("blobnew", [("a", self.expr(env, INT, d - 1, pure)), ("s", self.expr(env, STR, d - 1, pure))])
+        if ty == ENUM_E:
+            k = r.randint(0, 2)
+            if k == 0:
+                return ("variant", "A", self.expr(env, INT, d - 1, pure))
+            if k == 1:
+                return ("variant", "B", self.expr(env, STR, d - 1, pure))
+            return ("variant", "C", None)
+        if isinstance(ty, tuple) and ty[0] == "fn":
+            return self.lam(env, ty, d)
+        raise ValueError(ty)
+
+    def rec_lam(self, b):
+        """b :: fn n: int -> int do if n <= 0 or n > 5 do ret 0 end  ret b(n - 1) + 1 end"""
+        n = self.nb("param", INT, False, "n")
+        guard = ("bin", "or", ("bin", "<=", ("var", n), ("int", 0)), ("bin", ">", ("var", n), ("int", 5)))
+        return ("lambda", [n], [("if", [(guard, [("ret", ("int", 0))])], None),
+                                ("ret", ("bin", "+", ("call", ("var", b), [("bin", "-", ("var", n), ("int", 1))]),
+                                         ("int", 1)))], INT)
+
+    def lam(self, env, ty, d):
+        params = [self.nb("param", t, False, "p") for t in ty[1]]
+        body = self.body(env + [list(params)], ty[2], max(1, self.size - 2), d, in_loop=False)
+        return ("lambda", params, body, ty[2])
+
+    # ---- statements ------------------------------------------------------------------------
+    def body(self, env, ret, n, d, in_loop):
+        """statements of a function body: env's last scope is the function's scope"""
+        out = self.stmts(env, n, d, in_loop, ret)
+        out.append(("ret", self.expr(env, ret, 1) if ret is not None else None))
+        return out
+
+    def stmts(self, env, n, d, in_loop, ret):
+        out = []
+        for _ in range(self.r.randint(1, n)):
+            out.append(self.stmt(env, d, in_loop, ret))
+        # the value of a branch is the value of its last statement and the branches of an if/case
+        # with an else must agree: end every statement list with a void statement
+        if out[-1][0] in ("expr", "if", "case", "block", "loop"):
+            if self.r.random() < 0.7:
+                e = self.expr(env, INT, 1)
+                b = self.nb("local", INT, True, "l")
+                env[-1].append(b)
+                out.append(("def", b, e))
+            elif self.pure_ctx:
+                b = self.nb("local", INT, True, "l")
+                e = self.expr(env, INT, 1)
+                env[-1].append(b)
+                out.append(("def", b, e))
+            else:
+                out.append(("print", self.expr(env, INT, 1)))
+        return out
+
+    def value_ty(self):
+        pool = [INT, INT, INT, STR, BOOL, LIST_I]
+        if self.use_types:
+            pool += [BLOB_P, ENUM_E]
+        return self.r.choice(pool)
+
+    def stmt(self, env, d, in_loop, ret):
+        r = self.r
+        k = r.random()
+        cur = env[-1]
+        if k < 0.28 or d <= 0:
+            if r.random() < 0.25:
+                t = fn_ty([INT] * r.randint(0, 2), r.choice([INT, STR, None]))
+                b = self.nb("local", t, False, "lf")
+                b.pure = self.pure_ctx
+                cur.append(b)     # function: visible in its own body
+                if t == fn_ty([INT], INT) and r.random() < 0.5:
+                    return ("def", b, self.rec_lam(b))
+                b.open = True
+                e = self.lam(env, t, d - 1)
+                b.open = False
+                return ("def", b, e)
+            t = self.value_ty()
+            e = self.expr(env, t, 2)
+            b = self.nb("local", t, r.random() < 0.6, "l")
+            cur.append(b)         # value: visible after
+            return ("def", b, e)
+        if k < 0.40:
+            t = r.choice([INT, STR])
+            tgt = [b for b in self.vars_of(env, t, mut=True) if not getattr(b, "ctr", False)
+                   and (b.kind != "global" or (self.global_assign and not self.pure_ctx))]
+            if tgt:
+                op = r.choice(["=", "+="]) if t == INT else "="
+                return ("assign", r.choice(tgt), op, self.expr(env, t, 2))
+        if k < 0.52 and not self.pure_ctx:
+            return ("print", self.expr(env, r.choice([INT, STR, BOOL]), 2))
+        if k < 0.66:
+            arms = [(self.expr(env, BOOL, 2), self.stmts(env + [[]], 2, d - 1, in_loop, ret))]
+            while r.random() < 0.3 and len(arms) < 3:
+                arms.append((self.expr(env, BOOL, 2), self.stmts(env + [[]], 2, d - 1, in_loop, ret)))
+            els = self.stmts(env + [[]], 2, d - 1, in_loop, ret) if r.random() < 0.5 else None
+            return ("if", arms, els)
+        if k < 0.74:
+            c = self.nb("local", INT, True, "i")
+            c.ctr = True
+            cur.append(c)
+            inner = env + [[]]
+            body = self.stmts(inner, 2, d - 1, True, ret)
+            if r.random() < 0.3:
+                body.append(("if", [(self.expr(inner, BOOL, 1), [(r.choice([("break",), ("continue",)]))])], None))
+            return ("loop", c, r.randint(1, 3), body)
+        if k < 0.82 and self.use_types:
+            scrut = self.expr(env, ENUM_E, 1)
+            arms = []
+            for v, t in r.sample([("A", INT), ("B", STR), ("C", None)], r.randint(1, 3)):
+                sc = []
+                vb = None
+                if t is not None and r.random() < 0.8:
+                    vb = self.nb("casevar", t, False, "cv")
+                    sc.append(vb)
+                arms.append((v, vb, self.stmts(env + [sc], 2, d - 1, in_loop, ret)))
+            els = self.stmts(env + [[]], 1, d - 1, in_loop, ret)
+            return ("case", scrut, arms, els)
+        if k < 0.88:
+            return ("block", self.stmts(env + [[]], 3, d - 1, in_loop, ret))
+        if k < 0.94:
+            fs = self.callees(env)
+            if fs:
+                f = r.choice(fs)
+                return ("expr", ("call", ("var", f), [self.expr(env, t, 1) for t in f.ty[1]]))
+        if k < 0.97 and self.use_types:
+            pts = [b for b in self.vars_of(env, BLOB_P)
+                   if b.kind != "global" or (self.global_assign and not self.pure_ctx)]
+            if pts:
+                return ("setfield", ("var", r.choice(pts)), "a", self.expr(env, INT, 1))
+        if self.pure_ctx:
+            b = self.nb("local", INT, True, "l")
+            e = self.expr(env, INT, 1)
+            cur.append(b)
+            return ("def", b, e)
+        return ("print", self.expr(env, INT, 1))
+
+    # ---- whole program ---------------------------------------------------------------------
+    def program(self):
+        r = self.r
+        p = self.p
+        genv = []
+        if self.use_types:
+            p.items.append(("blob",))
+            p.items.append(("enum",))
+        nfun = r.randint(1, 2 + self.size)
+        nglob = r.randint(1, 2 + self.size)
+        # declare all globals first (they are visible everywhere), then build the bodies
+        funcs = []
+        for i in range(nfun):
+            t = fn_ty([r.choice([INT, STR, BOOL]) for _ in range(r.randint(0, 2))], r.choice([INT, STR, BOOL, None]))
+            b = self.nb("global", t, False, "f")
+            b.level = i + 1
+            b.pure = self.init_calls == "pure" and r.random() < 0.6
+            funcs.append(b)
+        globs = []
+        for _ in range(nglob):
+            t = self.value_ty()
+            globs.append(self.nb("global", t, r.random() < 0.5, "g"))
+        # function bodies may use every global and every function
+        genv = funcs + globs
+        items = []
+        for b in funcs:
+            self.level = b.level
+            self.pure_ctx = b.pure
+            if b.ty == fn_ty([INT], INT) and r.random() < 0.4:
+                items.append(("gdef", b, self.rec_lam(b)))
+                b.pure = True
+            else:
+                items.append(("gdef", b, self.lam([list(genv)], b.ty, 2)))
+        self.pure_ctx = False
+        self.level = 10 ** 9
+        # global initialisers: acyclic by construction -- global i may read globals < i and call
+        # functions only when effects_in_init (a function can read any global: possible cycle), so
+        # calls are restricted to functions whose bodies were generated with no global reads
+        for i, b in enumerate(globs):
+            visible = globs[:i]
+            if self.init_calls == "none":
+                items.append(("gdef", b, self.expr([list(visible)], b.ty, 2, pure=True)))
+            else:
+                self.pure_ctx = self.init_calls == "pure"
+                items.append(("gdef", b, self.expr([list(funcs) + list(visible)], b.ty, 2)))
+                self.pure_ctx = False
+        start = self.nb("global", fn_ty([], None), False, "start")
+        start.fixed = "start"
+        sbody = self.body([list(genv), []], None, 3 + self.size, 2, False)
+        fin = sbody.pop()
+        for g in globs:
+            if g.ty in (INT, STR, BOOL):
+                sbody.append(("print", ("var", g)))
+        sbody.append(fin)
+        items.append(("gdef", start, ("lambda", [], sbody, None)))
+        r.shuffle(items)
+        p.items.extend(items)
+        return p
+
+
+# ------------------------------------------------------------------------------------------------
+# rendering
+
+BLOB_SRC = "Pt :: blob {\n    a: int,\n    s: str,\n}\n"
+ENUM_SRC = "Ev :: enum\n    A int,\n    B str,\n    C,\nend\n"
+
+
+class Render:
+    def __init__(self, naming, qual=None):
+        self.n = naming
+        self.qual = qual or (lambda b: None)    # binder -> namespace prefix ("m." / "a.b.") or None
+
+    def name(self, b):
+        q = self.qual(b)
+        return (q or "") + self.n[b]
+
+    def e(self, x):
+        k = x[0]
+        if k == "int":
+            return str(x[1])
+        if k == "str":
+            return '"%s"' % x[1]
+        if k == "bool":
+            return "true" if x[1] else "false"
+        if k == "var":
+            return self.name(x[1])
+        if k == "raw":
+            return x[1]
+        if k == "bin":
+            return "(%s %s %s)" % (self.e(x[2]), x[1], self.e(x[3]))
+        if k == "not":
+            return "(not %s)" % self.e(x[1])
+        if k == "call":
+            return "%s(%s)" % (self.e(x[1]), ", ".join(self.e(a) for a in x[2]))
+        if k == "field":
+            return "%s.%s" % (self.e(x[1]), x[2])
+        if k == "index":
+            return "%s[%s]" % (self.e(x[1]), self.e(x[2]))
+        if k == "list":
+            return "[%s]" % ", ".join(self.e(a) for a in x[1])
+        if k == "blobnew":
+            return "%sPt { %s }" % (self.tq, ", ".join("%s: %s" % (f, self.e(v)) for f, v in x[1]))
+        if k == "variant":
+            return "(%sEv.%s%s)" % (self.tq, x[1], "" if x[2] is None else " (%s)" % self.e(x[2]))
+        if k == "ifx":
+            return "(if %s do %s else do %s end)" % (self.e(x[1]), self.e(x[2]), self.e(x[3]))
+        if k == "lambda":
+            return self.lam(x, 0)
+        raise ValueError(k)
+
+    tq = ""    # qualifier for the type names Pt / Ev (multi-file variants)
+
+    def ty(self, t):
+        if isinstance(t, tuple) and t[0] in ("blob", "enum"):
+            return self.tq + t[1]
+        if isinstance(t, tuple) and t[0] == "list":
+            return "[%s]" % self.ty(t[1])
+        return ty_text(t)
+
+    def lam(self, x, ind):
+        _, params, body, ret = x
+        head = "fn"
+        if params:
+            head += " " + ", ".join("%s: %s" % (self.n[p], self.ty(p.ty)) for p in params)
+        if ret is not None:
+            head += " -> " + self.ty(ret)
+        head += " do\n"
+        return head + self.block(body, ind + 1) + "    " * ind + "end"
+
+    def block(self, ss, ind):
+        return "".join(self.s(x, ind) for x in ss)
+
+    def s(self, x, ind):
+        p = "    " * ind
+        k = x[0]
+        if k == "def":
+            b, e = x[1], x[2]
+            if e[0] == "lambda":
+                return "%s%s :: %s\n" % (p, self.n[b], self.lam(e, ind))
+            return "%s%s %s %s\n" % (p, self.n[b], ":=" if b.mut else "::", self.e(e))
+        if k == "assign":
+            return "%s%s %s %s\n" % (p, self.name(x[1]), x[2], self.e(x[3]))
+        if k == "setfield":
+            return "%s%s.%s = %s\n" % (p, self.e(x[1]), x[2], self.e(x[3]))
+        if k == "print":
+            return "%sprint(%s)\n" % (p, self.e(x[1]))
+        if k == "expr":
+            return "%s%s\n" % (p, self.e(x[1]))
+        if k == "raw":
+            return "%s%s\n" % (p, x[1])
+        if k == "ret":
+            return "%sret%s\n" % (p, "" if x[1] is None else " " + self.e(x[1]))
+        if k == "break":
+            return p + "break\n"
+        if k == "continue":
+            return p + "continue\n"
+        if k == "block":
+            return "%sdo\n%s%send\n" % (p, self.block(x[1], ind + 1), p)
+        if k == "if":
+            out = ""
+            for i, (c, body) in enumerate(x[1]):
+                out += "%s%s %s do\n%s" % (p, "if" if i == 0 else "elif", self.e(c), self.block(body, ind + 1))
+            if x[2] is not None:
+                out += "%selse do\n%s" % (p, self.block(x[2], ind + 1))
+            return out + p + "end\n"
+        if k == "loop":
+            c, lim, body = x[1], x[2], x[3]
+            return ("%s%s := 0\n%sloop %s < %d do\n%s    %s += 1\n%s%send\n"
+                    % (p, self.n[c], p, self.n[c], lim, p, self.n[c], self.block(body, ind + 1), p))
+        if k == "case":
+            out = "%scase %s do\n" % (p, self.e(x[1]))
+            for v, vb, body in x[2]:
+                out += "%s    %s%s -> do\n%s%s    end\n" % (p, v, " " + self.n[vb] if vb is not None else "",
+                                                       self.block(body, ind + 2), p)
+            out += "%s    else do\n%s%s    end\n" % (p, self.block(x[3], ind + 2), p)
+            return out + p + "end\n"
+        raise ValueError(k)
+
+    def item(self, it):
+        if it[0] == "blob":
+            return BLOB_SRC
+        if it[0] == "enum":
+            return ENUM_SRC
+        if it[0] == "gdef":
+            return self.s(("def", it[1], it[2]), 0)
+        if it[0] == "raw":
+            return it[1] + "\n"
+        raise ValueError(it[0])
+
+    def program(self, p):
+        return "\n".join(self.item(it) for it in p.items)
+
+
+# ------------------------------------------------------------------------------------------------
+# namings and the independent lexical-scope checker
+
+def naming_distinct(p):
+    """maximally distinct: every binder its own fresh name"""
+    n = {}
+    for b in p.binders:
+        n[b] = getattr(b, "fixed", None) or "%s_%d" % (b.hint, b.uid)
+    return n
+
+
+class Scope:
+    """documented scoping: one scope per function / block / branch / loop body / case arm; a use
+    refers to the innermost enclosing declaration of that name visible at that point (a value is
+    visible after its definition, a function also inside its own body), then the module's globals"""
+
+    def __init__(self, naming, globals_):
+        self.n = naming
+        self.g = {}
+        self.dup = False
+        for b in globals_:
+            if naming[b] in self.g:
+                self.dup = True
+            self.g[naming[b]] = b
+        self.bad = []
+
+    def look(self, env, nm):
+        for sc in reversed(env):
+            for b in reversed(sc):
+                if self.n[b] == nm:
+                    return b
+        return self.g.get(nm)
+
+    def e(self, env, x):
+        k = x[0]
+        if k == "var":
+            got = self.look(env, self.n[x[1]])
+            if got is not x[1]:
+                self.bad.append((x[1], got))
+        elif k in ("int", "str", "bool", "raw"):
+            pass
+        elif k == "bin":
+            self.e(env, x[2]); self.e(env, x[3])
+        elif k == "not":
+            self.e(env, x[1])
+        elif k == "call":
+            self.e(env, x[1])
+            for a in x[2]:
+                self.e(env, a)
+        elif k == "field":
+            self.e(env, x[1])
+        elif k == "index":
+            self.e(env, x[1]); self.e(env, x[2])
+        elif k == "list":
+            for a in x[1]:
+                self.e(env, a)
+        elif k == "blobnew":
+            for _, v in x[1]:
+                self.e(env, v)
+        elif k == "variant":
+            if x[2] is not None:
+                self.e(env, x[2])
+        elif k == "ifx":
+            self.e(env, x[1]); self.e(env, x[2]); self.e(env, x[3])
+        elif k == "lambda":
+            self.block(env + [list(x[1])], x[2], new_scope=False)
+        else:
+            raise ValueError(k)
+
+    def block(self, env, ss, new_scope=True):
+        env = env + [[]] if new_scope else env
+        for s in ss:
+            self.s(env, s)
+
+    def s(self, env, x):
+        k = x[0]
+        if k == "def":
+            b, e = x[1], x[2]
+            if e[0] == "lambda":
+                env[-1].append(b)
+                self.e(env, e)
+            else:
+                self.e(env, e)
+                env[-1].append(b)
+        elif k == "assign":
+            got = self.look(env, self.n[x[1]])
+            if got is not x[1]:
+                self.bad.append((x[1], got))
+            self.e(env, x[3])
+        elif k == "setfield":
+            self.e(env, x[1]); self.e(env, x[3])
+        elif k in ("print", "expr"):
+            self.e(env, x[1])
+        elif k == "ret":
+            if x[1] is not None:
+                self.e(env, x[1])
+        elif k in ("break", "continue", "raw"):
+            pass
+        elif k == "block":
+            self.block(env, x[1])
+        elif k == "if":
+            for c, body in x[1]:
+                self.e(env, c)
+                self.block(env, body)
+            if x[2] is not None:
+                self.block(env, x[2])
+        elif k == "loop":
+            env[-1].append(x[1])
+            self.block(env, x[3])
+        elif k == "case":
+            self.e(env, x[1])
+            for v, vb, body in x[2]:
+                self.block(env + [[vb] if vb is not None else []], body, new_scope=False)
+            self.block(env, x[3])
+        else:
+            raise ValueError(k)
+
+
+def lexical_check(p, naming):
+    """True iff under `naming` every use refers, by the documented scoping rules, to its intended binder
+    and no two globals collide"""
+    globs = [it[1] for it in p.items if it[0] == "gdef"]
+    sc = Scope(naming, globs)
+    if sc.dup:
+        return False
+    for it in p.items:
+        if it[0] == "gdef":
+            if it[2][0] == "lambda":
+                sc.e([], it[2])
+            else:
+                sc.e([], it[2])
+    return not sc.bad
+
+
+def naming_shadow(p, r, pool=("a", "b", "c")):
+    """maximal legal shadowing: every non-global binder tries the names of a tiny pool and the names of
+    the globals (shadowing them), keeping the first choice under which the program is still
+    lexically consistent (checked by `lexical_check`, which knows nothing about the compiler)"""
+    n = naming_distinct(p)
+    gnames = [n[b] for b in p.binders if b.kind == "global" and not getattr(b, "fixed", None)]
+    for b in p.binders:
+        if b.kind == "global":
+            continue
+        cands = list(pool) + gnames
+        r.shuffle(cands)
+        old = n[b]
+        for c in cands[:6]:
+            n[b] = c
+            if lexical_check(p, n):
+                break
+            n[b] = old
+    return n
+
+
+# ------------------------------------------------------------------------------------------------
+# shrinking of abstract programs: delete statements / items while `failing(prog)` stays true
+
+def _stmt_lists(x, acc):
+    """collect every mutable statement list reachable from expression/statement node x"""
+    if isinstance(x, list):
+        if x and all(isinstance(y, tuple) and y and isinstance(y[0], str) and y[0] in
+                     ("def", "assign", "setfield", "print", "expr", "raw", "ret", "break", "continue", "block", "if",
+                      "loop", "case") for y in x):
+            acc.append(x)
+        for y in x:
+            _stmt_lists(y, acc)
+    elif isinstance(x, tuple):
+        for y in x:
+            _stmt_lists(y, acc)
+
+
+def shrink_prog(p, failing, max_tests=400, keep=()):
+    """greedy: p is modified in place; failing(p) -> bool"""
+    tests = 0
+    changed = True
+    while changed and tests < max_tests:
+        changed = False
+        lists = [p.items]
+        for it in p.items:
+            _stmt_lists(it, lists)
+        for lst in lists:
+            i = len(lst) - 1
+            while i >= 0 and tests < max_tests:
+                if lst is p.items and lst[i][0] == "gdef" and getattr(lst[i][1], "fixed", None):
+                    i -= 1
+                    continue
+                if lst[i][0] in keep:
+                    i -= 1
+                    continue
+                x = lst.pop(i)
+                tests += 1
+                if failing(p):
+                    changed = True
+                else:
+                    lst.insert(i, x)
+                i -= 1
+    return p
+
+
+# ------------------------------------------------------------------------------------------------
+# the known defect class "branch scope leak": the same checker with branches / case arms that do not
+# close their scope (what name_resolution.rs does on the pinned tree).  Used only to *classify* an
+# oracle failure as an instance of that recorded finding, never to excuse anything else.
+
+class LeakyScope(Scope):
+    def s(self, env, x):
+        k = x[0]
+        if k == "if":
+            for c, body in x[1]:
+                self.e(env, c)
+                self.block(env, body, new_scope=False)
+            if x[2] is not None:
+                self.block(env, x[2], new_scope=False)
+        elif k == "case":
+            self.e(env, x[1])
+            for v, vb, body in x[2]:
+                if vb is not None:
+                    env[-1].append(vb)
+                self.block(env, body, new_scope=False)
+            self.block(env, x[3], new_scope=False)
+        else:
+            Scope.s(self, env, x)
+
+
+def leaky_check(p, naming):
+    """True iff the naming is also consistent when if-branches and case arms leak their variables"""
+    globs = [it[1] for it in p.items if it[0] == "gdef"]
+    sc = LeakyScope(naming, globs)
+    if sc.dup:
+        return False
+    for it in p.items:
+        if it[0] == "gdef":
+            sc.e([], it[2])
+    return not sc.bad
+
+
+def naming_shadow_safe(p, r, pool=("a", "b", "c")):
+    """maximal shadowing that is consistent under the documented scoping AND under the leaky one: the
+    recorded scope-leak finding cannot explain a difference between this naming and the distinct one"""
+    n = naming_distinct(p)
+    gnames = [n[b] for b in p.binders if b.kind == "global" and not getattr(b, "fixed", None)]
+    for b in p.binders:
+        if b.kind == "global":
+            continue
+        cands = list(pool) + gnames
+        r.shuffle(cands)
+        old = n[b]
+        for c in cands[:6]:
+            n[b] = c
+            if lexical_check(p, n) and leaky_check(p, n):
+                break
+            n[b] = old
+    return n
+
+
+# ------------------------------------------------------------------------------------------------
+# planted scope violations: a use of a local outside its scope / before its declaration
+
+def _positions(p, leaky=False):
+    """every (statement list, index, visible binders) where a statement can be inserted, together with
+    the binders lexically visible there (documented scoping; leaky=True: if-branches and case arms do
+    not close their scope, the recorded defect class)"""
+    out = []
+
+    def lam(env, x):
+        block(env + [list(x[1])], x[2], False)
+
+    def ex(env, x):
+        k = x[0]
+        if k == "lambda":
+            lam(env, x)
+        elif k in ("bin",):
+            ex(env, x[2]); ex(env, x[3])
+        elif k in ("not", "field"):
+            ex(env, x[1])
+        elif k == "call":
+            ex(env, x[1])
+            for a in x[2]:
+                ex(env, a)
+        elif k == "list":
+            for a in x[1]:
+                ex(env, a)
+        elif k == "blobnew":
+            for _, v in x[1]:
+                ex(env, v)
+        elif k == "variant" and x[2] is not None:
+            ex(env, x[2])
+        elif k == "ifx":
+            ex(env, x[1]); ex(env, x[2]); ex(env, x[3])
+
+    def block(env, ss, new_scope=True):
+        env = env + [[]] if new_scope else env
+        for i, s in enumerate(ss):
+            if s[0] != "ret" or True:
+                out.append((ss, i, [b for sc in env for b in sc]))
+            st(env, s)
+        if not ss or ss[-1][0] not in ("ret", "break", "continue"):
+            out.append((ss, len(ss), [b for sc in env for b in sc]))
+
+    def st(env, x):
+        k = x[0]
+        if k == "def":
+            if x[2][0] == "lambda":
+                env[-1].append(x[1]); ex(env, x[2])
+            else:
+                ex(env, x[2]); env[-1].append(x[1])
+        elif k == "assign":
+            ex(env, x[3])
+        elif k == "setfield":
+            ex(env, x[1]); ex(env, x[3])
+        elif k in ("print", "expr"):
+            ex(env, x[1])
+        elif k == "ret" and x[1] is not None:
+            ex(env, x[1])
+        elif k == "block":
+            block(env, x[1])
+        elif k == "if":
+            for c, body in x[1]:
+                ex(env, c); block(env, body, not leaky)
+            if x[2] is not None:
+                block(env, x[2], not leaky)
+        elif k == "loop":
+            env[-1].append(x[1]); block(env, x[3])
+        elif k == "case":
+            ex(env, x[1])
+            for v, vb, body in x[2]:
+                if leaky:
+                    if vb is not None:
+                        env[-1].append(vb)
+                    block(env, body, False)
+                else:
+                    block(env + [[vb] if vb is not None else []], body, False)
+            block(env, x[3], not leaky)
+
+    for it in p.items:
+        if it[0] == "gdef" and it[2][0] == "lambda":
+            lam([], it[2])
+    return out
+
+
+def plant_violations(p, r, k=4):
+    """up to k variants of p (as (description, apply, undo)) each with ONE `print(<local>)` inserted at a
+    position where that local is not visible by the documented rules; with the distinct naming no
+    other binder has that name, so the compiler has to reject the program"""
+    pos = _positions(p)
+    lpos = _positions(p, leaky=True)
+    assert len(pos) == len(lpos)
+    locs = [b for b in p.binders if b.kind in ("local", "param", "casevar") and b.ty in (INT, STR, BOOL)]
+    out = []
+    tries = 0
+    while len(out) < k and tries < 40 and pos and locs:
+        tries += 1
+        j = r.randrange(len(pos))
+        ss, i, vis = pos[j]
+        b = r.choice(locs)
+        if any(v is b for v in vis):
+            continue
+        leak_visible = any(v is b for v in lpos[j][2])
+        out.append((ss, i, b, leak_visible))
+    return out
